@@ -192,6 +192,8 @@ func ruleWhoMayCancel(c *Ctx, r *R, anchor, wrapper, cancelField string, winnerM
 			switch {
 			case strings.HasSuffix(name, wrapper+".Close"):
 				r.discharged(key, call.Pos(), "Close cancels the workers")
+			case closeOnlyLiteral(c, fn, pkgRel, wrapper):
+				r.discharged(key, call.Pos(), "the literal is kept in a field of "+wrapper+" that only Close calls: Close cancels the workers")
 			case worker[fn] && !winnerMayCancel:
 				r.violated(key, call.Pos(), "a background goroutine of "+anchor+" cancels the shared context itself: the peer that still holds undelivered items sees Done() and drops them, so an error (or the end) overtakes the items that preceded it; only Close may cancel")
 			case worker[fn]:
@@ -313,6 +315,41 @@ func ruleNilableTimer(c *Ctx, r *R) {
 				return
 			}
 			cal := call.Call.StaticCallee()
+			if cal != nil && cal.Blocks != nil && c.inModule(cal) && cal.Signature.Recv() == nil {
+				// the possibly-nil timer handed to a helper of the package (stopTimer(t.timer)): every method call through that
+				// parameter in the helper must be under a nil test of the parameter
+				for ai, a := range call.Call.Args {
+					ld, ok := resolveVal(a).(*ssa.UnOp)
+					if !ok || ld.Op != token.MUL || !isTimerField(ld.X) || ai >= len(cal.Params) {
+						continue
+					}
+					n++
+					prm := cal.Params[ai]
+					safeAll := true
+					instrs(cal, func(hb *ssa.BasicBlock, _ int, hin ssa.Instruction) {
+						hc, ok := hin.(*ssa.Call)
+						if !ok || hc.Call.IsInvoke() || len(hc.Call.Args) == 0 || hc.Call.Args[0] != ssa.Value(prm) {
+							return
+						}
+						hcal := hc.Call.StaticCallee()
+						if hcal == nil || hcal.Signature.Recv() == nil {
+							safeAll = false // handed on again: not followed further
+							return
+						}
+						guarded := false
+						for _, g := range guardsOf(hb) {
+							if cf, ok := g.asCmp(); ok && cf.op == token.NEQ && isNilConst(cf.y) && cf.x == ssa.Value(prm) {
+								guarded = true
+							}
+						}
+						if !guarded {
+							safeAll = false
+						}
+					})
+					r.ok(safeAll, c.nameOf(fn)+"|timer-handed-to:"+fname(cal)+"#"+itoa(n), call.Pos(), "JitterTicker.timer is nil after Stop(): the helper it is handed to calls a method through it without a nil test of its own (nil-pointer panic)")
+				}
+				return
+			}
 			if cal == nil || cal.Signature.Recv() == nil || !isNamedTypeDeep(cal.Signature.Recv().Type(), "time", "Timer") {
 				return
 			}
@@ -1397,3 +1434,85 @@ var _ = late(func() {
 		Clause: "same rule as C10.no-discarded-recv: the receiving half of the pipe that stream.Merge's workers feed returns every value it takes off the data channel (a context test after the receive drops a value whose Send - hence the worker - has already moved on: the merged output misses it)",
 		Run:    subRule(func(c *Ctx, r *R) { ruleNoDiscardedPull(c, r, "stream") }, "pipeStream")})
 })
+
+// closeOnlyLiteral: fn is a function literal whose only use is to be stored in a func-typed field of wrapper, and that field is
+// called by wrapper.Close and by nobody else (stop: func() { cancel(); workers.Wait() }, called as s.stop() in Close): what it
+// does is part of Close.
+func closeOnlyLiteral(c *Ctx, fn *ssa.Function, pkgRel, wrapper string) bool {
+	if fn.Parent() == nil {
+		return false
+	}
+	fld := ""
+	var wt types.Type
+	okUse := true
+	found := false
+	instrs(fn.Parent(), func(_ *ssa.BasicBlock, _ int, in ssa.Instruction) {
+		mc, ok := in.(*ssa.MakeClosure)
+		if !ok || mc.Fn != ssa.Value(fn) {
+			return
+		}
+		found = true
+		if mc.Referrers() == nil {
+			okUse = false
+			return
+		}
+		for _, ref := range *mc.Referrers() {
+			switch x := ref.(type) {
+			case *ssa.DebugRef:
+			case *ssa.Store:
+				fa, isFA := x.Addr.(*ssa.FieldAddr)
+				if !isFA || x.Val != ssa.Value(mc) || !isNamedType(fa.X.Type(), pkgRel, wrapper) {
+					okUse = false
+					continue
+				}
+				fld = fieldName(fa.X.Type(), fa.Field)
+				wt = fa.X.Type()
+			default:
+				okUse = false
+			}
+		}
+	})
+	if !found || !okUse || fld == "" {
+		return false
+	}
+	calls := 0
+	for _, f2 := range c.funcsOfPkg(pkgRel) {
+		instrs(f2, func(_ *ssa.BasicBlock, _ int, in ssa.Instruction) {
+			fa, ok := in.(*ssa.FieldAddr)
+			if !ok || !isNamedType(fa.X.Type(), pkgRel, wrapper) || fieldName(fa.X.Type(), fa.Field) != fld || fa.Referrers() == nil {
+				return
+			}
+			_ = wt
+			for _, ref := range *fa.Referrers() {
+				switch x := ref.(type) {
+				case *ssa.DebugRef:
+				case *ssa.Store:
+					if x.Addr != ssa.Value(fa) {
+						okUse = false
+					}
+				case *ssa.UnOp:
+					// a load: only to be called, and only in Close
+					if x.Referrers() == nil {
+						continue
+					}
+					for _, r2 := range *x.Referrers() {
+						switch y := r2.(type) {
+						case *ssa.DebugRef:
+						case *ssa.Call:
+							if y.Call.Value != ssa.Value(x) || !strings.HasSuffix(c.nameOf(f2), wrapper+".Close") {
+								okUse = false
+							} else {
+								calls++
+							}
+						default:
+							okUse = false
+						}
+					}
+				default:
+					okUse = false
+				}
+			}
+		})
+	}
+	return okUse && calls > 0
+}
